@@ -146,8 +146,14 @@ def gen_flowir_package(rr, idx):
                 ref = '%s:%s' % (rr.choice(direct), rr.choice(['ref', 'copy']))
                 c.setdefault('references', []).append(ref)
                 c['command']['arguments'] += ' ' + (ref if ref.endswith(':ref') else '')
-    return {'kind': 'flowir', 'name': 'pkg%d' % idx, 'doc': doc, 'variable_files': vfiles, 'files': data_files,
-            'platform': rr.choice(platforms) if rr.random() < 0.5 else None}
+    pkg = {'kind': 'flowir', 'name': 'pkg%d' % idx, 'doc': doc, 'variable_files': vfiles, 'files': data_files,
+           'platform': rr.choice(platforms) if rr.random() < 0.5 else None}
+    if len(vfiles) >= 2 and rr.random() < 0.3:
+        # a file given twice (e.g. a site default repeated after a specific file so that it wins)
+        order = list(range(len(vfiles)))
+        order.insert(rr.randrange(1, len(order) + 1), rr.randrange(len(vfiles)))
+        pkg['variable_order'] = order
+    return pkg
 
 
 def gen_dsl_package(rr, idx):
@@ -217,6 +223,7 @@ def shrink_candidates(case):
             for j in range(len(p['variable_files'])):
                 c = copy.deepcopy(case)
                 del c['packages'][i]['variable_files'][j]
+                c['packages'][i].pop('variable_order', None)
                 yield c
         comps = p['doc'].get('components') or []
         if p['kind'] == 'flowir' and len(comps) > 1:
@@ -287,6 +294,9 @@ def materialise(pkg, root, key_seed):
         with open(p, 'w') as f:
             yaml.safe_dump(v, f, sort_keys=False)
         vpaths.append(p)
+    if pkg.get('variable_order'):
+        # the same file may be given more than once: the order given is the layering order
+        vpaths = [vpaths[i] for i in pkg['variable_order'] if i < len(vpaths)]
     return path, vpaths
 
 
@@ -312,13 +322,20 @@ def first_diff(a, b, path=''):
     return None if a == b else (path, a, b)
 
 
+def files_as_given(pkg):
+    vfs = pkg['variable_files']
+    if pkg.get('variable_order'):
+        return [vfs[i] for i in pkg['variable_order'] if i < len(vfs)]
+    return vfs
+
+
 def expected_layering(pkg):
     exp = {}
-    for vf in pkg['variable_files']:
+    for vf in files_as_given(pkg):
         for k, v in (vf.get('global') or {}).items():
             exp[k] = v
     stage0 = {}
-    for vf in pkg['variable_files']:
+    for vf in files_as_given(pkg):
         st = vf.get('stages') or {}
         for k, v in (st.get(0) or st.get('0') or {}).items():
             stage0[k] = v
